@@ -100,7 +100,12 @@ fn string_wire_schema(g: &mut G) -> (String, Value, Vec<String>) {
                 };
                 return ("untagged-strings-same-type".into(), json!({"oneOf": alts}), probes.into_iter().map(|s| s.to_string()).collect());
             }
-            let (a, b, probes): (Value, Value, Vec<&str>) = match g.below(3) {
+            let (a, b, probes): (Value, Value, Vec<&str>) = match g.below(6) {
+                // overlapping alternatives, the more general one first: serde takes the first that
+                // fits, and so must every conversion
+                3 => (json!({"type": "string", "pattern": "^[^ ]+$"}), json!({"type": "string", "format": "uuid"}), vec!["123e4567-e89b-12d3-a456-426614174000", "abc", "a b", ""]),
+                4 => (json!({"type": "string", "pattern": "^[^ ]+$"}), json!({"type": "string", "format": "ipv4"}), vec!["10.0.0.1", "abc", "a b", "::1"]),
+                5 => (json!({"type": "string", "pattern": "x"}), json!({"type": "string", "format": "date"}), vec!["2020-02-29", "axb", "2020-02-29x", ""]),
                 0 => (json!({"type": "string", "format": "ipv4"}), json!({"type": "string", "format": "ipv6"}), vec!["10.0.0.1", "::1", "zz", ""]),
                 1 => (json!({"type": "string", "format": "uuid"}), json!({"type": "string", "pattern": "^[0-9]{3}$"}), vec!["123e4567-e89b-12d3-a456-426614174000", "123", "1234", "abc"]),
                 _ => (json!({"type": "string", "pattern": "^[a-z]+$"}), json!({"type": "string", "pattern": "^[0-9]{3}$"}), vec!["abc", "123", "a1", "", "ABC"]),
@@ -159,7 +164,18 @@ impl Property for C11 {
     fn prepare(&self, case_v: &Value) -> Unit {
         let mut ops = vec!["de", "display"];
         ops.extend(CONV_OPS);
-        let mut u = prepare_values(case_v, &want_conversions, &ops).unit;
+        // values are compared structurally too (Debug form): "gives the same value"
+        let want = |ix: &crate::analyse::Index, f: &crate::ingest::TypeFact, op: &str| -> Option<&'static str> {
+            want_conversions(ix, f, op).map(|h| match h {
+                "de" => "de_dbg",
+                "parse" => "parse_dbg",
+                "try_from_str" => "try_from_str_dbg",
+                "try_from_ref_string" => "try_from_ref_string_dbg",
+                "try_from_string" => "try_from_string_dbg",
+                other => other,
+            })
+        };
+        let mut u = prepare_values(case_v, &want, &ops).unit;
         if let Ok(c) = parse_case(case_v) {
             u.classes.extend(c.features);
         }
